@@ -11,7 +11,8 @@ EXPLANATION = (
     "their source object; R4 no subscript by an index that is None on that path (shape preservation); R5 re-scaled codes that may be fractional are not given an integer value type before rounding; __setitem__/constructor reach the normaliser's branch through "
     "set_val (write-funnel rule); like=/template state is deep-copied (sequences of conversions do not leak modes). Residual: value-level agreement on inexact doubles."
     " Added after the third round of seeded changes: resize makes no cast of its own while re-scaling; the dtype-string reader/writer agreement (C12.R1/R2) and the element view's configuration (C17.R6) are included as conversion routes."
-    ' Added after the fourth round of seeded changes: resize restores scaled objects from the read map computed with the old fraction length (C17.R2); C20.R8 objects carry only the documented attributes and no function writes module-level containers (no caches / memos that go stale).')
+    ' Added after the fourth round of seeded changes: resize restores scaled objects from the read map computed with the old fraction length (C17.R2); C20.R8 objects carry only the documented attributes and no function writes module-level containers (no caches / memos that go stale).'
+    ' Added after the fifth round of seeded changes: C20.R8 also forbids mutable default arguments and private attributes hung on operands (x._cache, x.__dict__[...]).')
 ASSUMPTIONS = ["a[None] inserts an axis (NumPy lemma)", "2**k with negative k is an exact dyadic double"]
 TRUSTED = ["CPython ast", "scale typing rules of DESIGN A6"]
 
